@@ -225,6 +225,18 @@ _add('C09', [('/bsdiff', '(*PatchContext).NewIndividualPatchContext')])
 _add('C12', [('/bsdiff', '(*PatchContext).NewIndividualPatchContext')])
 _add('C07', [('/bsdiff', '(*PatchContext).NewIndividualPatchContext')])
 
+_add('C02', [('/pwr/bowl', '(*overlayBowl).Transpose'), ('/pwr/bowl', 'detectGhosts'), ('/pwr/bowl', '(*overlayBowl).deleteGhosts'), ('/pwr/bowl', '(*overlayBowl).ensureDirsAndSymlinks$2')])
+_add('C03', [('/pwr/bowl', '(*overlayBowl).Transpose')])
+_add('C06', [('/pwr', '(*ArchiveHealer).healOne'), ('/pwr', '(*ArchiveHealer).heal'), ('/pwr', '(*Wound).Healthy')])
+_add('C05', [('/pwr', '(*Wound).Healthy'), ('/pwr', '(*WoundsWriter).Do'), ('/pwr', '(*WoundsPrinter).Do')])
+_add('C16', [('/pwr', '(*Wound).Healthy'), ('/pwr', '(*WoundsWriter).Do'), ('/pwr', '(*WoundsPrinter).Do')])
+for _p in ('C13', 'C01', 'C07', 'C10', 'C03'):
+    _add(_p, [('/pwr', 'DecompressWire')])
+_add('C18', [('/pwr/onclose', '(*Writer).Write')])
+_add('C19', [('/archiver', 'CopyFile'), ('/archiver', 'ExtractTar')])
+for _p in ('C12', 'C09', 'C07', 'C10'):
+    _add(_p, [('/bsdiff/lrufile', '(*lruFile).Reset')])
+
 # properties with a registered check
 CLAIMED = {'C02', 'C03', 'C15', 'C19', 'C18', 'C04', 'C09', 'C17', 'C11', 'C08', 'C01', 'C10', 'C12', 'C07', 'C14', 'C13', 'C05', 'C16', 'C06'}
 # reasons for properties not claimed (kept current)
